@@ -95,7 +95,10 @@ def run_case(seed):
         count(f"species_from={src}")
         if src == 'reference' and refdir is None:
             pf = gen.gen_plotfile(rng, ndims=3, nlevels=1, max_blocks=1, payload='ints')
-            pf.fields = ['density'] + [f'Y({s})' for s in c.species] + ['temp']
+            # the species names come from the Y(...) fields or, without any, from the I_R(...) fields
+            pre = rng.choice(['Y', 'Y', 'I_R'])
+            count(f"reference species fields={pre}")
+            pf.fields = ['density'] + [f'{pre}({s})' for s in c.species] + ['temp']
             for lev in pf.levels:
                 lev.data = [gen.gen_payload(rng, tuple(h - l + 1 for l, h in zip(lo, hi)) + (len(pf.fields),), 'ints')
                             for lo, hi in lev.boxes]
